@@ -40,7 +40,7 @@ static void add_scen(const char *name, int kind, int ver, int kx, uint16_t suite
     s = &scens[nscen++];
     memset(s, 0, sizeof(*s));
     s->name = name; s->kind = kind; s->resumed = resumed; s->expect_complete = expect_complete;
-    s->cfg.ver = ver; s->cfg.kx = kx; s->cfg.suite = suite; s->cfg.client_auth = cauth; s->cfg.bad_server_cert = bad; s->cfg.tickets = tickets;
+    s->cfg.ver = ver; s->cfg.kx = kx; s->cfg.suite = suite; s->cfg.client_auth = cauth; s->cfg.bad_server_cert = bad == 1; s->cfg.bad_server_sig = bad == 2; s->cfg.tickets = tickets;
 }
 
 /* -------------------------------------------------------------- fault plan */
@@ -403,6 +403,11 @@ int main(int argc, char **argv)
     add_scen("tls12-rsa-resumed", K_SESSION, V_TLS12, KX_RSA, 0, 0, 0, 0, 1, 1, 1);
     add_scen("tls12-rsa-badcert", K_SESSION, V_TLS12, KX_RSA, 0, 0, 1, 0, 0, 0, 1);
     add_scen("tls13-rsa-badcert", K_SESSION, V_TLS13, KX_13_RSA, 0, 0, 1, 0, 0, 0, 1);
+    /* the issuer IS trusted, the signature on the server certificate does not verify: the verdict must survive a failed
+       allocation inside the signature check itself */
+    add_scen("tls12-rsa-badsig", K_SESSION, V_TLS12, KX_RSA, 0, 0, 2, 0, 0, 0, 1);
+    add_scen("tls13-rsa-badsig", K_SESSION, V_TLS13, KX_13_RSA, 0, 0, 2, 0, 0, 0, 1);
+    add_scen("tls12-ecdhe-ecdsa-badsig", K_SESSION, V_TLS12, KX_ECDHE_ECDSA, 0, 0, 2, 0, 0, 0, 0);
     add_scen("tls12-rsa-clientauth-tickets", K_SESSION, V_TLS12, KX_RSA, 0, 1, 0, 1, 0, 1, 1);
     add_scen("tls12-rsa-tickets-rotated", K_SESSION, V_TLS12, KX_RSA, 0, 0, 0, 1, 2, 1, 1);
     add_scen("tls13-psk", K_SESSION, V_TLS13, KX_13_PSK, 0, 0, 0, 0, 0, 1, 1);
